@@ -103,9 +103,9 @@ def lexEmitNonTag (env : Env κ) (inp : Bytes) (c : Common) (l : LexRegs) (x : C
     (outline : Option NonTagOutline) (rawEnd : Nat) : M κ × Option Signal :=
   let lx : NonTagLexeme := ⟨x.prevConsumed, ⟨l.lexemeStart, rawEnd⟩, outline⟩
   let l := { l with lexemeStart := rawEnd }
-  let (k, res) := env.ops.handleNonTag inp lx x.sink
-  let m : M κ := ⟨c, .lexer l, { x with sink := k }⟩
-  match res with
+  let r := env.ops.handleNonTag inp lx x.sink
+  let m : M κ := ⟨c, .lexer l, { x with sink := r.1 }⟩
+  match r.2 with
   | .ok () => (m, none)
   | .error e => (m, some (.err e))
 
@@ -166,48 +166,55 @@ def lexHandleFeedback (inp : Bytes) (c : Common) (sim : Sim) (f : Feedback) (o :
         | some (sim', f') => simple c sim' f'
   | f => simple c sim f
 
+/-- `try_get_tree_builder_feedback` (lexer/mod.rs:63), given the already taken feedback directive. -/
+def lexGetFeedback (cfg : TagCfg) (sim : Sim) (fd : FeedbackDirective) (token : TagOutline) :
+    Except Err (Sim × Option Feedback) :=
+  match fd with
+  | .applyUnhandled f => .ok (sim, some f)
+  | .skip => .ok (sim, none)
+  | .none =>
+    match token with
+    | .startTag _ h .. => (sim.feedbackForStartTag cfg h).map fun r => (r.1, some r.2)
+    | .endTag _ h => (sim.feedbackForEndTag cfg h).map fun r => (r.1, some r.2)
+
+/-- the namespace / last-start-tag bookkeeping of `emit_tag` (lexer/actions.rs:100-108) -/
+def lexStampTag (c : Common) (sim : Sim) (token : TagOutline) : Common × TagOutline :=
+  match token with
+  | .startTag n h _ as sc => ({ c with lastStartTagNameHash := h }, .startTag n h sim.currentNs as sc)
+  | t => (c, t)
+
+/-- `emit_tag_lexeme` (lexer/mod.rs:121) and the directive returned by the sink (lexer/actions.rs:110) -/
+def lexEmitTagLexeme (env : Env κ) (inp : Bytes) (c : Common) (l : LexRegs) (x : Ctx κ) (sim : Sim)
+    (token : TagOutline) (rawEnd : Nat) : M κ × Option Signal :=
+  let lx : TagLexeme := ⟨x.prevConsumed, ⟨l.lexemeStart, rawEnd⟩, token⟩
+  let l := { l with lexemeStart := rawEnd }
+  let r := env.ops.handleTag inp lx x.sink
+  let m : M κ := ⟨c, .lexer l, { x with sink := r.1, sim := sim }⟩
+  match r.2 with
+  | .error e => (m, some (.err e))
+  | .ok .lex => (m, none)
+  | .ok .scan => (m, some (.directive .scan (mkBookmark c l.lexemeStart .none)))
+
 /-- `emit_tag` (lexer/actions.rs:76) -/
 def lexEmitTag (env : Env κ) (inp : Bytes) (c : Common) (l : LexRegs) (x : Ctx κ) : M κ × Option Signal :=
   match l.curTag with
   | none => (⟨c, .lexer l, x⟩, some (.err (.internal "Tag token should exist at this point")))
   | some token =>
-    let l := { l with curTag := none }
-    -- try_get_tree_builder_feedback (lexer/mod.rs:63)
     let fd := l.fd
-    let l := { l with fd := .none }
-    let fb : Except Err (Sim × Option Feedback) :=
-      match fd with
-      | .applyUnhandled f => .ok (x.sim, some f)
-      | .skip => .ok (x.sim, none)
-      | .none =>
-        match token with
-        | .startTag _ h .. => (x.sim.feedbackForStartTag env.cfg h).map fun (s, f) => (s, some f)
-        | .endTag _ h => (x.sim.feedbackForEndTag env.cfg h).map fun (s, f) => (s, some f)
-    match fb with
+    let l := { l with curTag := none, fd := .none }
+    match lexGetFeedback env.cfg x.sim fd token with
     | .error e => (⟨c, .lexer l, x⟩, some (.err e))
-    | .ok (sim, feedback) =>
-      let rawEnd := c.pos + 1
+    | .ok sf =>
       let c := { c with lastTextType := .data }
       let applied : Except Err (Common × Sim) :=
-        match feedback with
-        | some f => lexHandleFeedback inp c sim f token
-        | none => .ok (c, sim)
+        match sf.2 with
+        | some f => lexHandleFeedback inp c sf.1 f token
+        | none => .ok (c, sf.1)
       match applied with
-      | .error e => (⟨c, .lexer l, { x with sim := sim }⟩, some (.err e))
-      | .ok (c, sim) =>
-        let (c, token) : Common × TagOutline :=
-          match token with
-          | .startTag n h _ as sc => ({ c with lastStartTagNameHash := h }, .startTag n h sim.currentNs as sc)
-          | t => (c, t)
-        let lx : TagLexeme := ⟨x.prevConsumed, ⟨l.lexemeStart, rawEnd⟩, token⟩
-        let l := { l with lexemeStart := rawEnd }
-        let (k, res) := env.ops.handleTag inp lx x.sink
-        let x := { x with sink := k, sim := sim }
-        let m : M κ := ⟨c, .lexer l, x⟩
-        match res with
-        | .error e => (m, some (.err e))
-        | .ok .lex => (m, none)
-        | .ok .scan => (m, some (.directive .scan (mkBookmark c l.lexemeStart .none)))
+      | .error e => (⟨c, .lexer l, { x with sim := sf.1 }⟩, some (.err e))
+      | .ok cs =>
+        let ct := lexStampTag cs.1 cs.2 token
+        lexEmitTagLexeme env inp ct.1 l x cs.2 ct.2 (c.pos + 1)
 
 def updTagHash (o : TagOutline) (ch : UInt8) : TagOutline :=
   match o with
@@ -283,7 +290,9 @@ def lexAct (env : Env κ) (a : ActName) (inp : Bytes) (c : Common) (l : LexRegs)
       | _ => ret c l
   | .finishAttrName =>
       match l.curAttr with
-      | some a => let r := tokenPartRange c l; ret c { l with curAttr := some { a with name := r, raw := r } }
+      | some a =>
+        let r := tokenPartRange c l
+        ret c { l with curAttr := some { a with name := r, raw := r, value := ⟨r.end, r.end⟩ } }
       | none => ret c l
   | .finishAttrValue =>
       match l.curAttr with
@@ -310,8 +319,40 @@ def lexAct (env : Env κ) (a : ActName) (inp : Bytes) (c : Common) (l : LexRegs)
 
 /-! ### Tag scanner actions -/
 
-/-- `TagScanner::finish_tag_name` (tag_scanner/actions.rs:43) with `try_apply_tree_builder_feedback`,
-`emit_tag_hint` and `take_feedback_directive` (tag_scanner/mod.rs:72-140) inlined. -/
+/-- `try_apply_tree_builder_feedback` (tag_scanner/mod.rs:100): what the scanner can apply itself,
+and what it must hand to the lexer. -/
+def scanApplyFeedback (c : Common) (s : ScanRegs) : Feedback → Common × ScanRegs × Option Feedback
+  | .switchTextType t => (c, { s with pendingTextTypeChange := some t }, none)
+  | .setAllowCdata b => ({ c with cdataAllowed := b }, s, none)
+  | .requestLexeme k => (c, s, some (.requestLexeme k))
+  | .none => (c, s, none)
+
+/-- `take_feedback_directive` (tag_scanner/mod.rs:132) -/
+def scanTakeFeedbackDirective (s : ScanRegs) : FeedbackDirective :=
+  match s.pendingTextTypeChange with
+  | some t => .applyUnhandled (.switchTextType t)
+  | none => .skip
+
+/-- `emit_tag_hint` (tag_scanner/mod.rs:72) and the reaction to the returned directive
+(tag_scanner/actions.rs:62-70) -/
+def scanEmitHint (env : Env κ) (inp : Bytes) (c : Common) (s : ScanRegs) (x : Ctx κ) (tagStart : Nat)
+    (isInEndTag : Bool) : M κ × Option Signal :=
+  match LocalName.new inp ⟨s.tagNameStart, c.pos⟩ s.tagNameHash with
+  | none => (⟨c, .scanner s, x⟩, some (.err (.panic "Bytes::slice out of range in emit_tag_hint")))
+  | some name =>
+    let c : Common := if isInEndTag then c else { c with lastStartTagNameHash := s.tagNameHash }
+    let res : κ × Except Err Directive :=
+      if isInEndTag then env.ops.endTagHint name x.sink
+      else env.ops.startTagHint name x.sim.currentNs x.sink
+    let x := { x with sink := res.1 }
+    match res.2 with
+    | .error e => (⟨c, .scanner s, x⟩, some (.err e))
+    | .ok .scan => (⟨c, .scanner s, x⟩, none)
+    | .ok .lex =>
+      (⟨c, .scanner { s with pendingTextTypeChange := none }, x⟩,
+       some (.directive .lex (mkBookmark c tagStart (scanTakeFeedbackDirective s))))
+
+/-- `TagScanner::finish_tag_name` (tag_scanner/actions.rs:43) -/
 def scanFinishTagName (env : Env κ) (inp : Bytes) (c : Common) (s : ScanRegs) (x : Ctx κ) : M κ × Option Signal :=
   match s.tagStart with
   | none => (⟨c, .scanner s, x⟩, some (.err (.internal "Tag start should be set at this point")))
@@ -321,39 +362,13 @@ def scanFinishTagName (env : Env κ) (inp : Bytes) (c : Common) (s : ScanRegs) (
               else x.sim.feedbackForStartTag env.cfg s.tagNameHash
     match fb with
     | .error e => (⟨c, .scanner s, x⟩, some (.err e))
-    | .ok (sim, feedback) =>
-      let x := { x with sim := sim }
-      let (c, s, unhandled) : Common × ScanRegs × Option Feedback :=
-        match feedback with
-        | .switchTextType t => (c, { s with pendingTextTypeChange := some t }, none)
-        | .setAllowCdata b => ({ c with cdataAllowed := b }, s, none)
-        | .requestLexeme k => (c, s, some (.requestLexeme k))
-        | .none => (c, s, none)
-      let isInEndTag := s.isInEndTag
-      let s := { s with isInEndTag := false }
-      match unhandled with
-      | some f => (⟨c, .scanner s, x⟩, some (.directive .lex (mkBookmark c tagStart (.applyUnhandled f))))
-      | none =>
-        -- emit_tag_hint
-        match LocalName.new inp ⟨s.tagNameStart, c.pos⟩ s.tagNameHash with
-        | none => (⟨c, .scanner s, x⟩, some (.err (.panic "Bytes::slice out of range in emit_tag_hint")))
-        | some name =>
-          let (c, res) : Common × (κ × Except Err Directive) :=
-            if isInEndTag then (c, env.ops.endTagHint name x.sink)
-            else
-              let c := { c with lastStartTagNameHash := s.tagNameHash }
-              (c, env.ops.startTagHint name x.sim.currentNs x.sink)
-          let x := { x with sink := res.1 }
-          match res.2 with
-          | .error e => (⟨c, .scanner s, x⟩, some (.err e))
-          | .ok .scan => (⟨c, .scanner s, x⟩, none)
-          | .ok .lex =>
-            let fd : FeedbackDirective :=
-              match s.pendingTextTypeChange with
-              | some t => .applyUnhandled (.switchTextType t)
-              | none => .skip
-            let s := { s with pendingTextTypeChange := none }
-            (⟨c, .scanner s, x⟩, some (.directive .lex (mkBookmark c tagStart fd)))
+    | .ok sf =>
+      let x := { x with sim := sf.1 }
+      let csu := scanApplyFeedback c s sf.2
+      let s' := { csu.2.1 with isInEndTag := false }
+      match csu.2.2 with
+      | some f => (⟨csu.1, .scanner s', x⟩, some (.directive .lex (mkBookmark csu.1 tagStart (.applyUnhandled f))))
+      | none => scanEmitHint env inp csu.1 s' x tagStart s.isInEndTag
 
 /-- Tag scanner implementation of `StateMachineActions` (tag_scanner/actions.rs). -/
 def scanAct (env : Env κ) (a : ActName) (inp : Bytes) (c : Common) (s : ScanRegs) (x : Ctx κ) :
